@@ -78,6 +78,23 @@ CHECKS = {
               "those tables, symtable scope check of every captured generated function, Lean pyRepr/pyUnquote vs repr/literal_eval. "
               "The statement for every class of every program is carried by the oracle (sampled), not by a theorem about the generators"),
         technique='Lean 4 proof over quoting / naming models + tables regenerated from generated code + renaming-equivariance oracle', ref='4 C15'),
+    'C16': dict(
+        text=("Lean theorems over a model of the property_wizard metaclass, dataclass field collection and the setter wrapper: field "
+              "order, constructor parameters, the declared default is the one routed through the setter exactly once when the argument "
+              "is omitted (factory product fresh per instance), supplied / assigned values pass unchanged, unpaired and read-only "
+              "properties and other attributes untouched (frame lemma), the IDE-helper style; witness of the repaired plain-default "
+              "defect under a quirk flag; model tied to the code over styled and wild class bodies x annotation kinds x default kinds x "
+              "argument subsets in forked children"),
+        technique='Lean 4 proof over a hand model + differential correspondence + quirk probe', ref='4 C16'),
+    'C18': dict(
+        text=("Lean theorems over a state machine of Env (environ copy, var_names, cleaned_to_env) and the generated __init__: in every "
+              "reachable state a _reload=True instantiation meets the reference resolution (kwarg, explicit names with prefix, letter-case "
+              "tiers, cleaned match, default; all missing fields reported together) — induction over histories with a cache invariant; "
+              "os.environ only changes by the user's own edits; dotenv over secrets over process environment, later file wins; "
+              "priority table regenerated from source; witnesses of the two repaired defects and of the recorded one under quirk flags; "
+              "model tied to the code state-by-state over exhaustive short and random long histories in forked children. Value "
+              "conversion is not modelled here (C04)"),
+        technique='Lean 4 proof over a hand state machine + history correspondence + quirk probes', ref='4 C18'),
     'C17': dict(
         text=("Lean theorems over a model of both pattern engines (default: generated pattern_to_dt incl. the '-'/'+' time variant; v1: "
               "generated load_to_pattern with class-level generation state): value = strptime under the first matching pattern converted "
